@@ -172,36 +172,51 @@ Proof.
 Qed.
 
 (* the model's learnt list *)
-Definition mlearnt (known : option conv) (delims : list str) (uris : list str) : list (str * str) :=
-  flat_map (fun u => if skip known u then [] else match classify al delims u with Some pl => [pl] | None => [] end) uris.
+Definition mlearnt (recog : str -> bool) (delims : list str) (uris : list str) : list (str * str) :=
+  flat_map (fun u => if skip recog u then [] else match classify al delims u with Some pl => [pl] | None => [] end) uris.
 
-Lemma upl_build known delims uris :
-  uri_prefix_to_luids al known delims uris = build (mlearnt known (eff_delims delims) uris) [].
+Lemma upl_build recog delims uris :
+  uri_prefix_to_luids al recog delims uris = build (mlearnt recog (eff_delims delims) uris) [].
 Proof.
   unfold uri_prefix_to_luids, mlearnt, build, eff_delims. generalize (@nil (str * list str)) as d.
   set (dl := match delims with [] => default_delimiters | _ => delims end).
   induction uris as [|u us IH]; intro d; simpl; auto.
   rewrite fold_left_app, IH. f_equal.
-  destruct (skip known u); simpl; auto. destruct (classify al dl u) as [[p l]|]; reflexivity.
+  destruct (skip recog u); simpl; auto. destruct (classify al dl u) as [[p l]|]; reflexivity.
 Qed.
 
-(* when the pre-existing converter is a strict converter over rs, the model's learnt list is the specification's *)
-Lemma mlearnt_spec known_rs c delims uris :
-  match known_rs with Some rs => mk_conv true [58%N] rs = Val c | None => True end ->
-  mlearnt (match known_rs with Some _ => Some c | None => None end) delims uris =
-  flat_map (fun u => if skipped known_rs true u then [] else match classify al delims u with Some pl => [pl] | None => [] end) uris.
+(* whatever the recogniser answers, the model's learnt list is the specification's *)
+Lemma mlearnt_spec recog delims uris :
+  mlearnt recog delims uris =
+  flat_map (fun u => if skipped recog true u then [] else match classify al delims u with Some pl => [pl] | None => [] end) uris.
+Proof. unfold mlearnt. apply flat_map_ext. intro u. unfold skip, skipped, recognised. simpl. reflexivity. Qed.
+
+Theorem discover_records_spec recog delims cutoff meta uris :
+  discover_records al recog delims cutoff meta uris = spec_records al recog true delims cutoff meta uris.
 Proof.
-  intro H. unfold mlearnt. apply flat_map_ext. intro u. unfold skip, skipped, recognised. simpl.
+  unfold discover_records, spec_records, spec_prefixes, learnt. f_equal.
+  rewrite upl_build, kept_build, (mlearnt_spec recog _ _). reflexivity.
+Qed.
+
+(* the specification depends on the recogniser only through its answers on the input URIs *)
+Lemma learnt_ext recog recog' ex dl us : (forall u, In u us -> recog u = recog' u) ->
+  learnt al recog ex dl us = learnt al recog' ex dl us.
+Proof.
+  intro E. unfold learnt. induction us as [|u us IH]; simpl; auto.
+  rewrite IH by (intros; apply E; right; auto). f_equal.
+  unfold skipped, recognised. rewrite (E u) by (left; auto). reflexivity.
+Qed.
+Theorem spec_records_ext recog recog' ex dl cutoff meta us : (forall u, In u us -> recog u = recog' u) ->
+  spec_records al recog ex dl cutoff meta us = spec_records al recog' ex dl cutoff meta us.
+Proof. intro E. unfold spec_records, spec_prefixes. rewrite (learnt_ext recog recog' ex dl us E). reflexivity. Qed.
+(* with a strict pre-existing converter over rs the recogniser is "some registered URI prefix of rs is a prefix of u" *)
+Theorem discover_records_conv known_rs c delims cutoff meta uris :
+  match known_rs with Some rs => mk_conv true [58%N] rs = Val c | None => True end ->
+  discover_records al (recog_of (match known_rs with Some _ => Some c | None => None end)) delims cutoff meta uris =
+  spec_records al (recog_rs known_rs) true delims cutoff meta uris.
+Proof.
+  intro H. rewrite discover_records_spec. apply spec_records_ext. intros u _. unfold recog_of, recog_rs.
   destruct known_rs as [rs|]; [rewrite (A_is_uri _ _ _ H)|]; reflexivity.
-Qed.
-
-Theorem discover_records_spec known_rs c delims cutoff meta uris :
-  match known_rs with Some rs => mk_conv true [58%N] rs = Val c | None => True end ->
-  discover_records al (match known_rs with Some _ => Some c | None => None end) delims cutoff meta uris =
-  spec_records al known_rs true delims cutoff meta uris.
-Proof.
-  intro H. unfold discover_records, spec_records, spec_prefixes, learnt. f_equal.
-  rewrite upl_build, kept_build, (mlearnt_spec known_rs c _ _ H). reflexivity.
 Qed.
 
 (* ---- a function of the SET of URIs ---- *)
@@ -324,14 +339,14 @@ Proof.
 Qed.
 
 (* URIs already recognised by the supplied converter contribute nothing *)
-Theorem known_skip rs ex dl cutoff meta us :
-  spec_records al (Some rs) ex dl cutoff meta us =
-  spec_records al (Some rs) ex dl cutoff meta (filter (fun u => negb (sp_is_uri rs u)) us).
+Theorem known_skip recog ex dl cutoff meta us :
+  spec_records al recog ex dl cutoff meta us =
+  spec_records al recog ex dl cutoff meta (filter (fun u => negb (recog u)) us).
 Proof.
   unfold spec_records, spec_prefixes. 
-  assert (E: learnt al (Some rs) ex dl us = learnt al (Some rs) ex dl (filter (fun u => negb (sp_is_uri rs u)) us)).
+  assert (E: learnt al recog ex dl us = learnt al recog ex dl (filter (fun u => negb (recog u)) us)).
   { unfold learnt. induction us as [|u us IH]; simpl; auto. unfold skipped at 1. unfold recognised. simpl.
-    destruct (sp_is_uri rs u) eqn:R; simpl; auto. unfold skipped at 2. unfold recognised. rewrite R. simpl. rewrite IH. reflexivity. }
+    destruct (recog u) eqn:R; simpl; auto. unfold skipped at 2. unfold recognised. rewrite R. simpl. rewrite IH. reflexivity. }
   rewrite E. reflexivity.
 Qed.
 End D3.
@@ -341,5 +356,5 @@ Lemma github_refuted :
   let al := (fun c => (48 <=? c) && (c <=? 57))%N in
   let u := (github ++ [47;111;47;114;47;105;115;115;117;101;115;47;49;50])%N in      (* https://github.com/o/r/issues/12 *)
   classify al default_delimiters u <> None /\
-  exists D, discover al None [] None [110;115]%N [u] = Val D /\ compress D u false false = Val None.
+  exists D, discover al (fun _ => false) [] None [110;115]%N [u] = Val D /\ compress D u false false = Val None.
 Proof. vm_compute. split; [discriminate|]. eexists. split; reflexivity. Qed.
